@@ -130,6 +130,8 @@ impl Iterator for AttributeParser {
 
         let name = match first {
             TokenTree::Ident(ident) => ident,
+            // An argument left empty: `"a", , priority = 3`
+            tt if is_punct(&tt, ',') => return Some(Nested::Unexpected(TokenStream::from(tt))),
             tt => {
                 let stream = self.collect_tail(tt);
 
